@@ -309,6 +309,16 @@ def main(mod, argv=None):
         seed = int(os.environ.get("VERIF_SEED", "1"))
     except ValueError:
         seed = 1
+    if args.replay:
+        # a replay file records the seed and tier it was written under: the case only means the same thing there
+        try:
+            rp = json.load(open(args.replay))
+            seed = int(rp.get("seed", seed))
+            if rp.get("tier") in ("quick", "thorough"):
+                args.tier = rp["tier"]
+        except (OSError, ValueError):
+            print("HARNESS-FAILURE property=%s cannot read replay file %s" % (mod.PROP, args.replay))
+            return 2
     ctx = Ctx(mod.PROP, args.tier, seed)
     ctx.params["cases"] = args.cases
     t0 = time.time()
